@@ -1,8 +1,201 @@
+import NaijaVerif.Model.Parse
+import NaijaVerif.Driver.AstIO
 import NaijaVerif.Driver.Util
-/-! Family `parse` — stub (replaced by the unit that owns this family). -/
+import NaijaVerif.Model.ParsePrint
+import NaijaVerif.Lemmas.ParseDefs
+/-! Family `parse` (see `harness/src/parse.rs` for the protocol):
+```
+parse <hex src> <tokens>   -> diags=<D> labels=<L> ast=<A> end=ok
+```
+`<tokens>` is the token list the real lexer yields for `<src>` (`kind@lo:hi` joined by `,`; payloads
+`ident:<hex>`, `num:<hex>`, `str:<hex>:<0|1>`; `-` = empty list) — the same text as
+`NaijaVerif.Lex.toksStr`.  The model parses the token list; the source is not looked at.
+rt <hex src> <tokens>      -> rt exprs=<n> ok=<k> notwf=<m> bad=<b>      (model-only self check, see `rt`)
+prt <hex src> <tokens>     -> prt ok | prt notcanon | prt bad | prt skip      (model-only self check, see `prt`)
+`<D>`/`<L>` = `diagsStr`/`labelsStr` of the syntax diagnostics, `<A>` = `AstIO.blockStr` with spans,
+annotations all `_`.  (The token reader below is a private copy of `Lex.readToks`, kept so that this
+driver does not depend on the lexer model.) -/
 namespace NaijaVerif.Driver.ParseD
+open NaijaVerif NaijaVerif.Driver NaijaVerif.Parse
+
+def plainToks : List Tok := [
+  .make, .get, .add, .minus, .times, .divide, .mod, .and, .or, .not, .jasi, .start, .end, .comot,
+  .next, .na, .pass, .smallPass, .ifToSay, .ifNotSo, .do, .ret, .tru, .fals, .null, .lparen,
+  .rparen, .lbracket, .rbracket, .comma, .dot, .eof]
+
+def readTok (s : String) : Option SpTok :=
+  match s.splitOn "@" with
+  | [pay, sp] =>
+    match sp.splitOn ":" with
+    | [a, b] =>
+      match a.toNat?, b.toNat? with
+      | some lo, some hi =>
+        let tok : Option Tok :=
+          match pay.splitOn ":" with
+          | ["str", h, e] =>
+            match unhex h, e with
+            | some c, "0" => some (.str c false)
+            | some c, "1" => some (.str c true)
+            | _, _ => none
+          | ["ident", h] => (unhex h).map .ident
+          | ["num", h] => (unhex h).map .num
+          | [k] => plainToks.find? (·.kindName == k)
+          | _ => none
+        tok.map fun t => ⟨t, ⟨lo, hi⟩⟩
+      | _, _ => none
+    | _ => none
+  | _ => none
+
+def readToks (s : String) : Option (List SpTok) :=
+  if s = "-" then some [] else (s.splitOn ",").mapM readTok
+
+def answer (toks : List SpTok) : String :=
+  let (b, ds) := parseProgram toks
+  s!"diags={diagsStr ds} labels={labelsStr ds} ast={AstIO.blockStr {} b} end=ok"
+
+/-! ### `rt`: the round-trip theorem's hypotheses and conclusion, evaluated on real ASTs
+
+For every top-level expression `e` of the statements of the parsed program (when it parsed without
+diagnostics): erase its spans, check the well-formedness predicate `WF` of `Lemmas/ParseRoundTrip.lean`
+(here as a Boolean function), print it with 0, 1 and 2 redundant pairs of parentheses around every
+sub-expression, parse the tokens with `parseExpr`, and compare.  This is a *test* that the printer and
+`WF` used by the theorem fit what the real parser produces (how many real expressions the theorem
+covers: `notwf` counts those outside `WF`); it imports the printer definitions from `Lemmas/`, which
+are core-only. -/
+
+def strOkB : StrParts → Bool
+  | .static _ => true
+  | .interp segs =>
+    match strParts (renderSegs segs) false with
+    | .interp s' => s' == segs
+    | _ => false
+
+mutual
+  def wfB : Expr → Bool
+    | .str parts _ => strOkB parts
+    | .var _ b _ => b.isNone
+    | .unary _ e _ => wfB e
+    | .binary _ l r _ => wfB l && wfB r
+    | .member o _ _ _ => wfB o
+    | .call c args fn _ => fn.isNone && wfB c && wfBs args
+    | .index a i _ _ => wfB a && wfB i
+    | .array es _ => wfBs es
+    | _ => true
+  def wfBs : List Expr → Bool
+    | [] => true
+    | e :: es => wfB e && wfBs es
+end
+
+mutual
+  def stmtExprs : Stmt → List Expr
+    | .fnDef _ _ _ b _ _ _ => blockExprs b
+    | .assign _ _ e _ _ _ => [e]
+    | .assignExisting _ _ e _ _ _ => [e]
+    | .assignIndex t e _ _ => [t, e]
+    | .ifS c t none _ _ => c :: blockExprs t
+    | .ifS c t (some e) _ _ => c :: (blockExprs t ++ blockExprs e)
+    | .loop c b _ _ => c :: blockExprs b
+    | .block b _ _ => blockExprs b
+    | .ret none _ _ => []
+    | .ret (some e) _ _ => [e]
+    | .brk _ _ => []
+    | .cont _ _ => []
+    | .expr e _ _ => [e]
+  def stmtsExprs : List Stmt → List Expr
+    | [] => []
+    | s :: ss => stmtExprs s ++ stmtsExprs ss
+  def blockExprs : Block → List Expr
+    | .mk ss _ => stmtsExprs ss
+end
+
+def endSt : PState := ⟨⟨.eof, zspan⟩, [], []⟩
+
+/-- 0 = ok, 1 = not WF, 2 = bad -/
+def rtOne (e : Expr) : Nat :=
+  let e0 := eraseExpr e
+  if !wfB e0 then 1 else
+  let want := AstIO.exprStr {} e0
+  let okFor (k : Nat) : Bool :=
+    let ts := printAt (fun _ => k) 0 e0
+    match parseExpr (3 * ts.length + 10) 0 (pushToks ts endSt) with
+    | some (e1, st1) =>
+      AstIO.exprStr {} e1 == want && st1.errs.isEmpty && st1.cur.tok == .eof && st1.rest.isEmpty
+    | none => false
+  if okFor 0 && okFor 1 && okFor 2 then 0 else 2
+
+def rt (toks : List SpTok) : String :=
+  let (b, ds) := parseProgram toks
+  if !ds.isEmpty then "rt exprs=0 ok=0 notwf=0 bad=0" else
+  let rs := (blockExprs b).map rtOne
+  s!"rt exprs={rs.length} ok={(rs.filter (· == 0)).length} notwf={(rs.filter (· == 1)).length} bad={(rs.filter (· == 2)).length}"
+
+/-! ### `prt`: the statement-level round trip on real programs
+
+The parsed program (when it has no diagnostics) is span-erased, checked against the canonical-program
+predicate of `Lemmas/ParseRoundTripStmt.lean` (`CanonBlock`, here as a Boolean function), printed with
+`programToks` and parsed again. -/
+
+def startsIdentB : List Tok → Bool
+  | .ident _ :: _ => true
+  | _ => false
+
+def isIndexB : Expr → Bool
+  | .index .. => true
+  | _ => false
+
+def bareRetB : Stmt → Bool
+  | .ret none _ _ => true
+  | _ => false
+
+mutual
+  def canonStmtB (p : Expr → Nat) : Stmt → Bool
+    | .fnDef _ _ ps b fn sid _ => fn.isNone && sid.isNone && ps.all (fun q => q.bind.isNone) && canonBlockB p b
+    | .assign _ _ e bind sid _ => bind.isNone && sid.isNone && wfB e
+    | .assignExisting _ _ e bind sid _ => bind.isNone && sid.isNone && wfB e
+    | .assignIndex t e sid _ => sid.isNone && wfB t && wfB e && isIndexB t && startsIdentB (printAt p 0 t)
+    | .ifS c t none sid _ => sid.isNone && wfB c && canonBlockB p t
+    | .ifS c t (some e) sid _ => sid.isNone && wfB c && canonBlockB p t && canonBlockB p e
+    | .loop c b sid _ => sid.isNone && wfB c && canonBlockB p b
+    | .block b sid _ => sid.isNone && canonBlockB p b
+    | .ret none sid _ => sid.isNone
+    | .ret (some e) sid _ => sid.isNone && wfB e
+    | .brk sid _ => sid.isNone
+    | .cont sid _ => sid.isNone
+    | .expr e sid _ => sid.isNone && wfB e && startsIdentB (printAt p 0 e)
+  def canonStmtsB (p : Expr → Nat) : List Stmt → Bool
+    | [] => true
+    | [s] => canonStmtB p s
+    | s :: s' :: ss => canonStmtB p s && !bareRetB s && canonStmtsB p (s' :: ss)
+  def canonBlockB (p : Expr → Nat) : Block → Bool
+    | .mk ss _ => canonStmtsB p ss
+end
+
+def prt (toks : List SpTok) : String :=
+  let (b, ds) := parseProgram toks
+  if !ds.isEmpty then "prt skip" else
+  let b0 := eraseSpans b
+  let p : Expr → Nat := fun _ => 0
+  if !canonBlockB p b0 then "prt notcanon" else
+  let (b1, ds1) := parseProgram (programToks p b0)
+  if ds1.isEmpty && AstIO.blockStr {} b1 == AstIO.blockStr {} b0 then "prt ok" else "prt bad"
+
+def step (_ : Unit) (line : String) : Unit × String :=
+  match words line with
+  | ["parse", _src, t] =>
+    match readToks t with
+    | some ts => ((), answer ts)
+    | none => ((), "unreadable-tokens")
+  | ["prt", _src, t] =>
+    match readToks t with
+    | some ts => ((), prt ts)
+    | none => ((), "unreadable-tokens")
+  | ["rt", _src, t] =>
+    match readToks t with
+    | some ts => ((), rt ts)
+    | none => ((), "unreadable-tokens")
+  | _ => ((), "bad-op")
 
 def main : IO Unit := do
-  IO.eprintln "family parse: not built yet"
+  loop (← IO.getStdin) (← IO.getStdout) () step
 
 end NaijaVerif.Driver.ParseD
